@@ -23,13 +23,16 @@ import (
 
 var prefixHeads = []string{"lisp:function", "lisp:expr", "quote", "lisp:quote", "function", "'lisp:function", "'lisp:expr", "a"}
 
-var prefixOperands = []string{"a", "a:b", ":k", "1", "2.0", `"s\t"`, "()", "(a)", "(a b)", "[a]", "(a (b))", "'a", "#'a"}
+var prefixOperands = []string{"a", "a:b", ":k", "1", "2.0", `"s\t"`, "()", "(a)", "(a b)", "[a]", "(a (b))", "'a", "#'a",
+	// operands with a line break INSIDE: the re-sugared form's own newline bookkeeping must come from its prefix, not from
+	// the last token of its operand (a closing bracket that starts a line)
+	"(a\n)", "(a\n b)", "[a\n]"}
 
 // prefixOperandShapes: the operand-shape sub-space.  The printer may only
 // re-sugar (lisp:expr X) / (lisp:function X) when the READER accepts the
 // shorthand for that X, and the reader's rule looks INSIDE X (an unbound
 // expression may not hold an unquoted nested expression, whatever quoting X
-// itself carries): every operand is a quoting prefix (none, ', '', #', #^) on a
+// itself carries): every operand is a quoting prefix (none, ', ”, #', #^) on a
 // body from atoms, flat lists, lists holding an unquoted / quoted / bracketed /
 // empty list, in both bracket kinds.
 func prefixOperandShapes() []string {
